@@ -1200,6 +1200,9 @@ func (g *Gen) siteClauses(b *ssa.BasicBlock, ins ssa.CallInstruction, st *State,
 
 // writeOnlyArray: a private array allocation (variadic argument array) that the function itself never reads.
 func (g *Gen) writeOnlyArray(a *ssa.Alloc) bool {
+	if g.con != nil && g.con.ArgsOnly {
+		return false // call-site assertions may speak about the variadic arguments: model the array
+	}
 	if _, isArr := a.Type().Underlying().(*types.Pointer).Elem().Underlying().(*types.Array); !isArr {
 		return false
 	}
